@@ -8,6 +8,11 @@ THEOREMS = [
     "NakenVerif.TwoPass.accepted_labels_stable",
     "NakenVerif.TwoPass.moved_label_is_error",
     "NakenVerif.TwoPass.label_is_placement",
+    "NakenVerif.TwoPass.label_is_placement_no_pad",
+    "NakenVerif.TwoPass.pad_breaks_placement",
+    "NakenVerif.TwoPass.func_moved_is_rejected",
+    "NakenVerif.TwoPass.msp430_pad_counterexample",
+    "NakenVerif.TwoPass.avr8_skip_counterexample",
     "NakenVerif.TwoPass.labels_stable",
     "NakenVerif.TwoPass.data_size_stable",
     "NakenVerif.TwoPass.flag_idiom_size_stable",
@@ -17,22 +22,37 @@ THEOREMS = [
     "NakenVerif.TwoPass.value_changed_sizes_differ",
     "NakenVerif.TwoPass.flag_overwritten_is_rejected",
 ]
-RULE = ("programs per CPU: a label before and after every statement; operands are constants, backward and forward "
-        "labels whose values admit the short encoding or need the long one; low and high areas via .org; data "
-        "directives between instructions; every program with and without -optimize.  Non-trivial = program with at "
-        "least one forward reference to a small-valued label; distinct = distinct (cpu, source, optimize).")
-MODELLED = ("generic two-pass driver (label | emit with pass/flag dependent size | org | data) incl. the pass-2 "
-            "moved-label check of Symbols::append, the pass-1 flag byte idiom memory_write(address, flag)/"
-            "memory_read(address) and its MSP430 constant-generator instance")
+RULE = ("programs per CPU: a name before and after every statement, bound by `name:` (global or local to a .scope/"
+        ".func) or by `.func name`; operands are constants, backward and forward labels whose values admit the short "
+        "encoding or need the long one; low and high areas via .org; data directives between instructions, of even length "
+        "or (odd stream) of odd length without .align; every program with and without -optimize.  Non-trivial = program "
+        "with at least one forward reference to a small-valued label; distinct = distinct (cpu, source, optimize).")
+MODELLED = ("generic two-pass driver (name: | .func name | emit with pass/flag dependent size behind a back-end pad | org | "
+            "data) incl. the pass-2 moved-label check of Symbols::append (reached from both binding paths), the pass-1 "
+            "flag byte idiom memory_write(address, flag)/memory_read(address) and its MSP430 constant-generator instance, "
+            "the MSP430 pad byte / AVR8 word skip in front of an instruction at an odd counter")
 NOT_MODELLED = ("the per-CPU operand parsers: msp430, msp430x, 6502, 65816, 68hc08, 68000, mips, mips32, stm8, riscv, z80, "
-                "avr8, 6800, 8051, thumb, arm, tms9900, pdp11 are covered by the implementation-side search only "
-                "(p1 address = p2 address = placement); all other CPUs not exercised")
-ASSUMPTIONS = ["labels are re-bound in pass 2 through Symbols::set_debug() (the device of tests/symbol_address) to observe "
-               "pass-2 addresses; the production run (lock()) is observed through marker data following labels"]
-TRUSTED_BASE = ["tools/gen_prog.py program generator and its per-CPU form table"]
+                "avr8, 6800, 8051, thumb, arm, tms9900, pdp11, 6809, tms340 are covered by the implementation-side search "
+                "only (p1 address = p2 address = placement of the following data / code); all other CPUs not exercised; "
+                "names bound by imported symbols (AsmContext::link) not exercised")
+ASSUMPTIONS = ["names are re-bound in pass 2 through Symbols::set_debug() (the device of tests/symbol_address) to observe "
+               "pass-2 addresses; the production run (lock()) is observed through marker data following names, through the "
+               "bytes of position-independent statements (reference: the same statement assembled alone by the real code at "
+               "two aligned origins) and through Memory::debug_line (the byte that carries a statement's line, matched to "
+               "the source's instruction statements by rank)"]
+TRUSTED_BASE = ["tools/gen_prog.py program generator and its per-CPU form table",
+                "the encoding of a single statement assembled alone at an aligned origin (C01/C06 territory) is the reference "
+                "for where that statement's bytes are in a program"]
 
 CPUS_QUICK = ["msp430", "msp430x", "6502", "65816", "68hc08", "68000", "mips", "mips32", "stm8", "riscv", "z80", "avr8",
-              "6800", "8051", "tms9900", "pdp11", "thumb", "arm"]
+              "6800", "8051", "tms9900", "pdp11", "thumb", "arm", "6809", "tms340"]
+
+# forms whose size in pass 2 can differ from the size reserved in pass 1 (a forward reference to a small value):
+# the programs built from them exercise the moved-name check, through `name:` and through `.func name`
+UNSTABLE = {"6809": ["lda {},x", "ldb {},y", "leax {},u", "lda [{},x]", "adda {},s", "stb {},x", "leay {},y"],
+            "tms340": ["jruc {}", "jrne {}", "movi {}, a1", "addi {}, a2", "andi {}, a4", "cmpi {}, a5"]}
+
+ORG_A, ORG_B = 0x400, 0x2340        # two aligned origins for the stand-alone reference of a statement
 
 
 def norm_form(form):
@@ -40,18 +60,24 @@ def norm_form(form):
 
 
 def parse_source(src):
-    """label definitions in source order: [(name, marker value or None, (form, cls) of the last
-    statement before the label)] — read back from the comments the generator writes."""
+    """name definitions in source order: [(name, marker value or None, (form, cls) of the last
+    statement before the definition, kind)] — read back from the text the generator writes
+    (`name:` and `.func name`); used by replay and as a cross-check of info["defs"]."""
     out = []
     prev = ("(area start)", "-")
     lines = src.split("\n")
     for k, ln in enumerate(lines):
         t = ln.strip()
+        name = kind = None
         if t.endswith(":") and " " not in t:
+            name, kind = t[:-1], "colon"
+        elif t.startswith(".func "):
+            name, kind = t.split()[1], "func"
+        if name is not None:
             m = None
             if k + 1 < len(lines) and lines[k + 1].endswith("; M"):
                 m = int(lines[k + 1].split()[1], 16)
-            out.append((t[:-1], m, prev))
+            out.append((name, m, prev, kind))
         elif "; S " in t:
             form, _, cls = t.split("; S ", 1)[1].rpartition(" | ")
             prev = (form, cls)
@@ -60,8 +86,147 @@ def parse_source(src):
     return out
 
 
-def judge(src, info, opt, locked, debug):
-    """locked = parse_prog of `prog` (production: lock), debug = parse_prog of `progd` (labels re-bound in pass 2)."""
+def info_from_source(src):
+    """rebuild the generator's description of a program (info["defs"] etc.) from its text, so that a stored
+    failing input can be judged again without the generator's state"""
+    lines = src.split("\n")
+    cpu = lines[0].strip().lstrip(".")
+    defs, stmts = [], []
+    prev = ("(area start)", "-")
+    pending = []
+    opened = None
+    msize = None
+    for k, ln in enumerate(lines):
+        t = ln.strip()
+        name = kind = None
+        if t.startswith(".org"):
+            prev, pending = ("(area start)", "-"), []
+        elif t == ".scope":
+            opened = "scope"
+        elif t in (".ends", ".endf"):
+            opened = None
+        elif t.startswith(".func "):
+            name, kind, opened = t.split()[1], "func", "func"
+        elif t.endswith(":") and " " not in t:
+            name = t[:-1]
+            kind = "colon" if opened is None else ("scope" if lines[k - 1].strip() == ".scope" else "local")
+        elif t.endswith("; M"):
+            msize = {".db": 1, ".dc16": 2, ".dc32": 4}[t.split()[0]]
+            if defs and defs[-1]["line"] == k:          # the datum directly behind the definition
+                defs[-1]["marker"] = int(t.split()[1], 16)
+            for d in pending:
+                d["next"] = {"kind": "data", "line": k + 1, "form": t.split()[0], "cls": "-", "text": t}
+            pending = []
+        elif "; S " in t:
+            text, meta = t.split(" ; S ", 1)
+            form, _, cls = meta.rpartition(" | ")
+            isdata = form.startswith(".")
+            for d in pending:
+                d["next"] = {"kind": "data" if isdata else "instr", "line": k + 1, "form": form, "cls": cls, "text": text}
+            pending = []
+            prev = (form, cls)
+            stmts.append((len(defs), "data" if isdata else form, cls))
+        if name is not None:
+            d = {"name": name, "kind": kind, "marker": None, "prev": prev, "line": k + 1, "next": None}
+            defs.append(d)
+            pending.append(d)
+    return {"cpu": cpu, "defs": defs, "stmts": stmts, "msize": msize or 1}
+
+
+# ---- stand-alone reference of one statement ---------------------------------------------------
+# `.cpu / .org A / <statement>` assembled by the real code at an aligned origin: the bytes of the
+# statement and the offset (from the origin) of the lowest byte that carries the statement's line
+# in Memory::debug_line.  A statement whose bytes are the same at two origins is position
+# independent: wherever a program places it, those bytes must be at the address of the label in
+# front of it.
+
+def standalone_src(cpu, text, org):
+    return ".%s\n.org 0x%x\n  %s\n" % (cpu, org, text)
+
+
+def cal_text(cpu, form, is_rel, org):
+    if "{}" not in form:
+        return form
+    return form.replace("{}", "0x%x" % org if is_rel else "0x10")
+
+
+class Cal:
+    def __init__(self, ctx):
+        self.ctx = ctx
+        self.res = {}        # (cpu, opt, text, org) -> (bytes or None, marker offset or None)
+
+    def need(self, reqs):
+        reqs = [r for r in dict.fromkeys(reqs) if r not in self.res]
+        if not reqs:
+            return
+        lines = [nvlib.prog_line(standalone_src(cpu, text, org), "L" + ("o" if opt else "")) for cpu, opt, text, org in reqs]
+        for r, a in zip(reqs, self.ctx.impl(lines)):
+            d = nvlib.parse_prog(a)
+            if d.get("died") or d["st"] != 0:
+                self.res[r] = (None, None)
+                continue
+            base = r[3] * d["bpa"]
+            img = d["image"]
+            bs = []
+            while base + len(bs) in img:
+                bs.append(img[base + len(bs)])
+            if len(bs) != len(img):
+                bs = None                     # bytes elsewhere than from the origin on: not usable
+            marks = parse_lines(d)
+            off = list(marks.values())[0] - base if len(marks) == 1 else None
+            self.res[r] = (bytes(bs) if bs else None, off)
+
+    def encoding(self, cpu, opt, text):
+        """bytes of a position-independent statement, else None"""
+        ea, _ = self.res.get((cpu, opt, text, ORG_A), (None, None))
+        eb, _ = self.res.get((cpu, opt, text, ORG_B), (None, None))
+        return ea if ea is not None and ea == eb else None
+
+    def marker(self, cpu, opt, form, is_rel):
+        t = cal_text(cpu, form, is_rel, ORG_A)
+        return self.res.get((cpu, opt, t, ORG_A), (None, None))[1]
+
+
+def is_rel_form(cpu, form):
+    return any(form == r.rstrip("!") for r in G.FORMS[cpu].get("rel", []))
+
+
+def cal_requests(info, opt):
+    cpu = info["cpu"]
+    reqs = []
+    for d in info["defs"]:
+        nx = d["next"]
+        if not nx or nx["kind"] != "instr":
+            continue
+        rel = is_rel_form(cpu, nx["form"])
+        reqs.append((cpu, opt, cal_text(cpu, nx["form"], rel, ORG_A), ORG_A))
+        if nx["cls"] in ("const-small", "const-large", "-") and not rel:
+            reqs.append((cpu, opt, nx["text"], ORG_A))
+            reqs.append((cpu, opt, nx["text"], ORG_B))
+    return reqs
+
+
+def parse_lines(d):
+    out = {}
+    v = d.get("lines", "-") or "-"
+    if v != "-":
+        for ent in v.split(","):
+            ln, a, n = ent.split(":")
+            out[int(ln)] = int(a, 16)
+    return out
+
+
+def align_class(d, a, bpa, kinds):
+    """is the (byte) location counter odd at the name `d` (followed by an instruction) bound to byte address
+    `a`?  With one byte per address the address says so; with wider address units the image (a data byte
+    occupies the start of the unit the name points to)."""
+    if bpa == 1:
+        return "odd" if a & 1 else "even"
+    return "odd" if kinds.get(a) == "d" else "even"
+
+
+def judge(src, info, opt, locked, debug, cal, stats):
+    """locked = parse_prog of `prog` (production: lock), debug = parse_prog of `progd` (names re-bound in pass 2)."""
     cpu = info["cpu"]
     out = []
     o = "+opt" if opt else ""
@@ -70,86 +235,158 @@ def judge(src, info, opt, locked, debug):
     if locked["st"] != 0:
         return [], "rejected"
     bpa = locked["bpa"]
-    defs = parse_source(src)
+    defs = info["defs"]
     p1 = debug["p1_list"]
     p2 = debug["syms_list"]
     final = locked["syms_list"]
-    if [d[0] for d in defs] != [n for n, a, s, e in final]:
-        return [("C02:protocol:%s" % cpu, "labels of the source in order", str([n for n, a, s, e in final])[:200],
-                 "symbol list does not match the label definitions")], "accepted"
-    # 1. pass-1 address == pass-2 address, label by label in source order
+    strip = lambda ds: [{k: v for k, v in d.items() if k != "odd"} for d in ds]
+    if [d["name"] for d in defs] != [n for n, a, s, e in final] or strip(info_from_source(src)["defs"]) != strip(defs):
+        return [("C02:protocol:%s" % cpu, "names of the source in order", str([n for n, a, s, e in final])[:200],
+                 "symbol list does not match the definitions of the source")], "accepted"
+    # 0. the table after pass 2 of the production run is the table of pass 1
+    if locked["p1_list"] != final:
+        out.append(("C02:table-changed:%s%s" % (cpu, o), str(locked["p1_list"])[:200], str(final)[:200],
+                    "the symbol table changed during pass 2 of the production run"))
+    # 1. pass-1 address == pass-2 address, name by name in source order
     if debug["st"] == 0 and len(p1) == len(p2) == len(defs):
-        for (name, m, (form, cls)), (n1, a1, s1, e1), (n2, a2, s2, e2) in zip(defs, p1, p2):
+        for d, (n1, a1, s1, e1), (n2, a2, s2, e2) in zip(defs, p1, p2):
             if a1 != a2:
-                out.append(("C02:drift:%s%s:%s:%s" % (cpu, o, norm_form(form), cls),
-                            "%s = %x in both passes" % (name, a1), "pass 1 %x, pass 2 %x" % (a1, a2),
-                            "label moved between the passes; the statement before it is `%s` (%s)" % (form, cls)))
+                form, cls = d["prev"]
+                out.append(("C02:drift:%s%s:%s:%s:%s" % (cpu, o, norm_form(form), cls, d["kind"]),
+                            "%s = %x in both passes" % (d["name"], a1), "pass 1 %x, pass 2 %x" % (a1, a2),
+                            "name (%s) moved between the passes but the program was accepted; the statement before it is `%s` (%s)" % (d["kind"], form, cls)))
                 break
-    # 2. production run: the marker that follows a label is at the label's address
+    # 2. production run: the marker datum that follows a name is at the name's address
     img = locked["image"]
     big = locked["end"] == "b"
     ms = info["msize"]
-    last_ok = ("(area start)", "-")
-    for (name, m, prev), (n, a, sc, e) in zip(defs, final):
+    for d, (n, a, sc, e) in zip(defs, final):
+        m = d["marker"]
         if m is None:
             continue
+        stats["marker_checks"] += 1
         a *= bpa
-        bs = [img.get(a + i) for i in range(ms)]
-        got = None if None in bs else int.from_bytes(bytes(bs), "big" if big else "little")
-        if got != m:
+        ok = False
+        for sub in (range(bpa) if ms < bpa else (0,)):       # a byte datum inside a wider address unit
+            bs = [img.get(a + sub + i) for i in range(ms)]
+            if None not in bs and int.from_bytes(bytes(bs), "big" if big else "little") == m:
+                ok = True
+        if not ok:
             if not out:
-                out.append(("C02:placement:%s%s:%s:%s" % (cpu, o, norm_form(prev[0]), prev[1]),
-                            "marker %x at %s = %x" % (m, name, a), "bytes %s" % bs,
-                            "the data following the label is not at the label's address"))
+                out.append(("C02:placement:%s%s:%s:%s:%s:%s" % (cpu, o, norm_form(d["prev"][0]), d["prev"][1], d["kind"], align_class(d, a, bpa, locked["kinds"])),
+                            "marker %x at %s = %x" % (m, d["name"], a), "bytes %s" % [img.get(a + i) for i in range(max(ms, bpa))],
+                            "the data following the name is not at the name's address"))
+            break
+    # 3. production run: the code that follows a name is at the name's address
+    # (line markers are matched to the instruction statements of the source by rank: the assembler's line
+    #  counter drifts behind some statements, e.g. 6800 `ldab fwd,x` counts its line twice)
+    ilines = [k + 1 for k, ln in enumerate(src.split("\n")) if "; S " in ln and not ln.split("; S ", 1)[1].startswith(".")]
+    marks = parse_lines(locked)
+    marks = dict(zip(ilines, [marks[k] for k in sorted(marks)])) if len(marks) == len(ilines) else {}
+    for d, (n, a, sc, e) in zip(defs, final):
+        nx = d["next"]
+        if not nx or nx["kind"] != "instr":
+            continue
+        a *= bpa
+        form, cls = nx["form"], nx["cls"]
+        rel = is_rel_form(cpu, form)
+        how = None
+        # 3a. position-independent statement: its bytes are at the name's address
+        enc = cal.encoding(cpu, opt, nx["text"]) if cls in ("const-small", "const-large", "-") and not rel else None
+        if enc:
+            stats["code_checks"] += 1
+            stats["code_checks_kind"][d["kind"]] = stats["code_checks_kind"].get(d["kind"], 0) + 1
+            if align_class(d, a, bpa, locked["kinds"]) == "odd":
+                stats["code_checks_at_odd_counter"] += 1
+            if any(img.get(a + i) != enc[i] for i in range(len(enc))):
+                how = "lost"
+                for k in range(1, 9):
+                    if all(img.get(a + k + i) == enc[i] for i in range(len(enc))):
+                        how = "shift+%d" % k
+                        break
+                obs = "bytes %s" % bytes(img.get(a + i, 0) for i in range(len(enc) + 2)).hex()
+                exp = "bytes %s of `%s` at %s = %x" % (enc.hex(), nx["text"], d["name"], a)
+        # 3b. every instruction: the byte that carries the statement's line in Memory::debug_line is where the
+        #     stand-alone assembly of the same form puts it, relative to the name's address
+        if how is None:
+            want = cal.marker(cpu, opt, form, rel)
+            got = marks.get(nx["line"])
+            if want is not None and got is not None:
+                stats["line_checks"] += 1
+                if got - a != want:
+                    how = "marker%+d" % (got - a - want)
+                    obs = "line %d marks address %x" % (nx["line"], got)
+                    exp = "address %x (%s = %x, offset %d as in the stand-alone assembly)" % (a + want, d["name"], a, want)
+        if how is not None:
+            if not out:
+                out.append(("C02:code-placement:%s%s:%s:%s:%s:%s:%s" % (cpu, o, norm_form(form), cls, d["kind"], align_class(d, a, bpa, locked["kinds"]), how),
+                            exp, obs, "the code following the name (%s) is not at the address bound to the name" % d["kind"]))
             break
     return out, "accepted"
+
+
+KIND_PLAN = [("colon", False)] * 4 + [("mixed", False)] * 2 + [("func", False)] * 2 + [("local", False)] + [("mixed", True)] * 2 + [("colon", True), ("func", True)]
 
 
 def gen_cases(ctx):
     rng = ctx.rng
     cases = []
     cpus = CPUS_QUICK
-    per = ctx.scale(60, 600)
+    per = ctx.scale(50, 500)
     for cpu in cpus:
         for k in range(per):
             n = rng.choice([3, 5, 8, 12, 20])
-            src, info = G.gen_twopass(rng, cpu, n)
+            kinds, odd = KIND_PLAN[k % len(KIND_PLAN)]
+            src, info = G.gen_twopass(rng, cpu, n if not odd else min(n, 8), kinds=kinds, odd=odd)
             cases.append((src, info))
         for k in range(ctx.scale(3, 20)):
             src, info = G.gen_twopass(rng, cpu, rng.choice([4, 8]), shadow=True, rel=False)
             cases.append((src, info))
-        # one statement form at a time: every form x every operand class (exhaustive over the table)
+        # one statement form at a time: every form x every operand class (exhaustive over the table),
+        # once with plain labels, once with function names only, once behind data of odd length
         f = G.FORMS[cpu]
         for form in f["forms"]:
-            src, info = G.gen_twopass(rng, cpu, 6, forms=[form], rel=False)
-            cases.append((src, info))
+            for kinds, odd in (("colon", False), ("func", False), ("mixed", True)):
+                src, info = G.gen_twopass(rng, cpu, 6, forms=[form], rel=False, kinds=kinds, odd=odd)
+                cases.append((src, info))
     return cases
 
 
 def oracle(ctx, orc, focus=None):
     cases = gen_cases(ctx)
     lines = []
+    cal = Cal(ctx)
+    reqs = []
     for src, info in cases:
-        for opt in ("1", "1o"):
+        for opt in ("1L", "1oL"):
             lines.append(nvlib.prog_line(src, opt))
             lines.append("progd %s %s" % ("o" if "o" in opt else "-", nvlib.hexs(src)))
+        reqs += cal_requests(info, False) + cal_requests(info, True)
     ans = ctx.impl(lines)
-    stats = {"accepted": 0, "rejected": 0, "died": 0, "per_cpu": {}, "classes": {}, "rejected_examples": []}
+    cal.need(reqs)
+    stats = {"accepted": 0, "rejected": 0, "died": 0, "per_cpu": {}, "classes": {}, "rejected_examples": [],
+             "marker_checks": 0, "code_checks": 0, "code_checks_kind": {}, "code_checks_at_odd_counter": 0, "line_checks": 0,
+             "standalone_runs": len(cal.res), "programs_by_kind": {}, "names_by_kind": {}}
     i = 0
     for src, info in cases:
+        key = "%s%s" % (info["kinds"], "+odd" if info["odd_mode"] else "")
+        stats["programs_by_kind"][key] = stats["programs_by_kind"].get(key, 0) + 1
+        for d in info["defs"]:
+            stats["names_by_kind"][d["kind"]] = stats["names_by_kind"].get(d["kind"], 0) + 1
         for opt in (False, True):
             locked, debug = nvlib.parse_prog(ans[i]), nvlib.parse_prog(ans[i + 1])
             line = lines[i]
             i += 2
             orc["cases"] += 1
-            fs, verdict = judge(src, info, opt, locked, debug)
+            fs, verdict = judge(src, info, opt, locked, debug, cal, stats)
             stats[verdict] += 1
             c = stats["per_cpu"].setdefault(info["cpu"], {"accepted": 0, "rejected": 0, "died": 0})
             c[verdict] += 1
-            if verdict == "rejected" and any(c == "fwd-shadow" for _, _, c in info["stmts"]):
-                stats["rejected_with_fwd_shadow"] = stats.get("rejected_with_fwd_shadow", 0) + 1
-            if verdict == "rejected" and len(stats["rejected_examples"]) < 6:
-                stats["rejected_examples"].append(src.replace("\n", "|")[:300])
+            if verdict == "rejected":
+                if any(c == "fwd-shadow" for _, _, c in info["stmts"]):
+                    stats["rejected_with_fwd_shadow"] = stats.get("rejected_with_fwd_shadow", 0) + 1
+                if len(stats["rejected_examples"]) < 6:
+                    stats["rejected_examples"].append(src.replace("\n", "|")[:300])
             for _, form, cls in info["stmts"]:
                 stats["classes"][cls] = stats["classes"].get(cls, 0) + 1
             for sig, exp, obs, what in fs:
@@ -163,44 +400,66 @@ def oracle(ctx, orc, focus=None):
 def correspondence(ctx, corr):
     """The two-pass model is generic (statement sizes are parameters); its tie to the code is the
     driver itself: for generated programs the per-statement sizes observed on the real code in pass 1
-    and in pass 2 (`progd`: labels re-bound) are replayed through the model (`twopass`), which must
-    reproduce the verdict and the label addresses of the production run (`prog`: table locked,
-    moved label = error)."""
+    and in pass 2 (`progd`: names re-bound) are replayed through the model (`twopass`), which must
+    reproduce the verdict and the addresses of the production run (`prog`: table locked, moved
+    name = error).  Names bound by `.func` are `f:` statements of the model: they go through the same
+    check, so a code base that leaves them unchecked disagrees with the model on the programs whose
+    only names behind a size-unstable instruction are function names."""
     rng = ctx.rng
     lines, metas = [], []
+    plan = [("colon", True, True), ("colon", False, False), ("func", False, False), ("mixed", False, True),
+            ("func", False, True), ("colon", True, False)]
     for cpu in CPUS_QUICK:
+        forms_unstable = UNSTABLE.get(cpu)
         for k in range(ctx.scale(6, 60)):
-            src, info = G.gen_twopass(rng, cpu, rng.choice([4, 8, 12]), shadow=(k % 3 == 0), rel=(k % 3 != 0))
-            lines.append("progd - " + nvlib.hexs(src))
-            lines.append(nvlib.prog_line(src, "1"))
+            kinds, shadow, rel = plan[k % len(plan)]
+            src, info = G.gen_twopass(rng, cpu, rng.choice([4, 8, 12]), shadow=shadow, rel=rel, kinds=kinds)
             metas.append((src, info))
+        if forms_unstable:
+            for k in range(ctx.scale(4, 24)):
+                src, info = G.gen_twopass(rng, cpu, rng.choice([2, 4, 6]), forms=forms_unstable, rel=False,
+                                          kinds=("func", "colon", "mixed")[k % 3])
+                metas.append((src, info))
+        # every form alone with all operand classes: the forms the tree keeps size-stable must be accepted
+        for form in G.FORMS[cpu]["forms"]:
+            src, info = G.gen_twopass(rng, cpu, 5, forms=[form], rel=False, kinds=("colon", "func", "local")[len(metas) % 3])
+            metas.append((src, info))
+    for src, info in metas:
+        lines.append("progd - " + nvlib.hexs(src))
+        lines.append(nvlib.prog_line(src, "1"))
     ans = ctx.impl(lines)
     mlines, wants = [], []
-    verdicts = {"ok": 0, "moved": 0, "skipped": 0}
+    verdicts = {"ok": 0, "moved": 0, "skipped": 0, "moved_behind_func_only": 0}
+    kinds_seen = {}
+    expected_moves = {}
     for k, (src, info) in enumerate(metas):
         r = nvlib.parse_prog(ans[2 * k])
         locked = nvlib.parse_prog(ans[2 * k + 1])
         if r.get("died") or locked.get("died") or r["st"] != 0 or len(r["p1_list"]) != len(r["syms_list"]):
             verdicts["skipped"] += 1
             continue
-        defs = parse_source(src)
-        if [d[0] for d in defs] != [n for n, a, s, e in r["p1_list"]]:
+        defs = info["defs"]
+        if [d["name"] for d in defs] != [n for n, a, s, e in r["p1_list"]]:
             verdicts["skipped"] += 1
             continue
-        # one model statement per label; between two consecutive labels of the same area an emit with
+        # one model statement per bound name; between two consecutive names of the same area an emit with
         # the observed sizes, across an `.org` an org statement.  Names are made unique by position
         # (the model's table is flat; scoping is C11's concern).
         ops, names = [], []
-        for i, ((name, m, prev), (n1, a1, s1, e1), (n2, a2, s2, e2)) in enumerate(zip(defs, r["p1_list"], r["syms_list"])):
-            u = "%s_%d" % (name, i)
+        first_moved = None
+        for i, (d, (n1, a1, s1, e1), (n2, a2, s2, e2)) in enumerate(zip(defs, r["p1_list"], r["syms_list"])):
+            u = "%s_%d" % (d["name"], i)
             if i > 0:
                 pa1, pa2 = r["p1_list"][i - 1][1], r["syms_list"][i - 1][1]
                 d1, d2 = a1 - pa1, a2 - pa2
-                if prev[0] == "(area start)" or d1 < 0 or d2 < 0 or d1 > 4096 or d2 > 4096:
+                if d["prev"][0] == "(area start)" or d1 < 0 or d2 < 0 or d1 > 4096 or d2 > 4096:
                     ops.append("o:%d" % a1)
                 else:
                     ops.append("e:%d:%d" % (d1, d2))
-            ops.append("l:" + u)
+            ops.append(("f:" if d["kind"] == "func" else "l:") + u)
+            kinds_seen[d["kind"]] = kinds_seen.get(d["kind"], 0) + 1
+            if first_moved is None and a1 != a2:
+                first_moved = d["kind"]
             names.append((u, a1, a2))
         mlines.append("twopass %d %s" % (names[0][1], " ".join(ops)))
         if locked["st"] == 0:
@@ -209,12 +468,55 @@ def correspondence(ctx, corr):
         else:
             wants.append("moved")
             verdicts["moved"] += 1
+        if first_moved == "func":
+            verdicts["moved_behind_func_only"] += 1
+        # size-stability of the back ends (the hypothesis of `labels_stable`): a name moves only behind a form
+        # the tree is known to re-size in pass 2 (UNSTABLE) or behind the forward-shadow shape
+        if first_moved is not None:
+            d = next(d for d, (n1, a1, s1, e1), (n2, a2, s2, e2) in zip(defs, r["p1_list"], r["syms_list"]) if a1 != a2)
+            form, cls = d["prev"]
+            key = "%s:%s:%s" % (info["cpu"], form, cls)
+            if cls == "fwd-shadow" or form in UNSTABLE.get(info["cpu"], []):
+                expected_moves[key] = expected_moves.get(key, 0) + 1
+            else:
+                corr["disagreements"].append({
+                    "line": "size-stable %s | %s" % (key, src.replace("\n", "|")[:900]),
+                    "impl": "name %s: pass 1 %x, pass 2 %x (%s)" % (d["name"], *[(a1, a2) for dd, (n1, a1, s1, e1), (n2, a2, s2, e2) in zip(defs, r["p1_list"], r["syms_list"]) if dd is d][0],
+                                                                  "accepted" if locked["st"] == 0 else "rejected: label moved"),
+                    "model": "the form reserves in pass 1 what it emits in pass 2 (SizeStable): no name moves"})
     got = ctx.model(mlines)
     corr["cases"] += len(mlines)
     for l, w, g in zip(mlines, wants, got):
         if w != g:
             corr["disagreements"].append({"line": l[:1000], "impl": w[:500], "model": g[:500]})
-    corr["streams"]["twopass"] = {"lines": len(mlines), "programs": len(metas), "verdicts": verdicts}
+    corr["streams"]["twopass"] = {"lines": len(mlines), "programs": len(metas), "verdicts": verdicts, "names_by_kind": kinds_seen,
+                                  "moves_behind_known_unstable_forms": expected_moves}
+    # the MSP430 constant-generator instance: the model computes the sizes itself (flag byte, pad byte)
+    progs = [G.gen_msp430cg(rng, rng.choice([3, 6, 10, 16])) for _ in range(ctx.scale(60, 600))]
+    ans = ctx.impl([nvlib.prog_line(src, "1") for src, ops, start, names in progs])
+    m430, w430 = [], []
+    v430 = {"ok": 0, "rejected": 0, "skipped": 0}
+    for (src, ops, start, names), a in zip(progs, ans):
+        d = nvlib.parse_prog(a)
+        if d.get("died") or [n for n, _, _, _ in d["p1_list"]] != names:
+            v430["skipped"] += 1
+            continue
+        m430.append("twopass430 %d %s" % (start, " ".join(ops[1:])))
+        if d["st"] == 0:
+            w430.append("ok " + " ".join("%s=%x/%x" % (n, a1, a2) for (n, a1, _, _), (_, a2, _, _) in zip(d["p1_list"], d["syms_list"])))
+            v430["ok"] += 1
+        else:
+            w430.append("moved")
+            v430["rejected"] += 1
+    g430 = ctx.model(m430)
+    corr["cases"] += len(m430)
+    for l, w, g, (src, _, _, _) in zip(m430, w430, g430, progs):
+        if w != g:
+            corr["disagreements"].append({"line": l[:600] + " | " + src.replace("\n", "|")[:600], "impl": w[:500], "model": g[:500]})
+    corr["streams"]["msp430cg"] = {"lines": len(m430), "verdicts": v430}
+    mlines += m430
+    wants += w430
+    got += g430
     corr["distinct_nontrivial"] = len(set(mlines))
     corr["samples"] = [{"line": mlines[i][:200], "impl": wants[i][:200], "model": got[i][:200]}
                        for i in range(0, len(mlines), max(1, len(mlines) // 4))][:4]
@@ -225,10 +527,14 @@ def replay(ctx, rec):
     src = f.get("input")
     if not src:
         return {"fails": False, "note": "no source recorded"}
-    opt = "o" if f.get("optimize") else ""
-    a = ctx.impl([nvlib.prog_line(src, "1" + opt), "progd %s %s" % (opt or "-", nvlib.hexs(src))])
-    debug = nvlib.parse_prog(a[1])
-    if debug.get("died"):
-        return {"fails": True, "impl": a[1][:300]}
-    moved = [(n, a1, a2) for (n, a1, s1, e1), (n2, a2, s2, e2) in zip(debug["p1_list"], debug["syms_list"]) if a1 != a2]
-    return {"fails": bool(moved), "moved_labels": moved[:10], "locked": a[0][:400]}
+    opt = bool(f.get("optimize"))
+    o = "o" if opt else ""
+    a = ctx.impl([nvlib.prog_line(src, "1L" + o), "progd %s %s" % (o or "-", nvlib.hexs(src))])
+    locked, debug = nvlib.parse_prog(a[0]), nvlib.parse_prog(a[1])
+    info = info_from_source(src)
+    cal = Cal(ctx)
+    cal.need(cal_requests(info, opt))
+    stats = {"marker_checks": 0, "code_checks": 0, "code_checks_kind": {}, "code_checks_at_odd_counter": 0, "line_checks": 0}
+    fs, verdict = judge(src, info, opt, locked, debug, cal, stats)
+    return {"fails": bool(fs), "verdict": verdict, "failures": [{"sig": s, "expected": e, "observed": ob} for s, e, ob, w in fs][:5],
+            "locked": a[0][:400]}
